@@ -11,8 +11,6 @@ import (
 	"strconv"
 	"strings"
 
-	"github.com/spf13/viper"
-
 	"github.com/atlassian/gostatsd/pkg/backends/graphite"
 )
 
@@ -238,7 +236,7 @@ func runGraphite(e *env, cs *caseRef, w *workload, rng *rand.Rand) {
 		c.Mode = "tags" // the family is about how tags are written
 	}
 	cs.Config = c
-	v := viper.New()
+	v := newCfg()
 	v.Set("graphite.address", "127.0.0.1:2003")
 	if c.Mode != "" {
 		v.Set("graphite.mode", c.Mode)
@@ -253,7 +251,7 @@ func runGraphite(e *env, cs *caseRef, w *workload, rng *rand.Rand) {
 		v.Set("graphite.global_suffix", c.GlobalSuffix)
 	}
 	setDisabled(v, w.Disabled)
-	be, err := graphite.NewClientFromViper(v, e.logger, e.pool)
+	be, err := e.initBackend(cs, "graphite", v, rng)
 	if err != nil {
 		e.r.Inconclusive("graphite:factory-error")
 		return
